@@ -1,7 +1,7 @@
 #!/bin/bash
 # usage: tools/eval_seed.sh C04 [extra check ids...]   -- evaluates the seeded change in /tmp/seed_<ID>
 ID=$1; shift
-WT=/tmp/seed_$ID
+WT=${SEEDPFX:-/tmp/seed_}$ID
 cd $WT || exit 2
 echo "== diff stat"; git diff --stat -- stackscope | tail -3
 git diff -- stackscope > /tmp/seed_$ID.diff
